@@ -261,7 +261,7 @@ def build_cores(ctx, rng):
             script = "set -- %s; set -- \"${@%s}\"; printf '%%s|' \"$#\"; printf '<%%s>' \"$@\"" % (
                 " ".join("'%s'" % v for v in vals), spec)
             fields = ["brush"] + list(vals)
-            arr = "1"
+            arr = "2"
 
         def canon(r, kind=kind):
             def ok(st, out, err):
@@ -308,7 +308,8 @@ def build_cores(ctx, rng):
 
         def canon(r):
             return canon_sh(r, lambda st, out, err: "V" + out.strip() if st == 0 else "F")
-        c.add(label=script, model=[("" if last is None else str(last))] + [("k" + k) if k is not None else "n" for k in lits],
+        last_eff = None if last is None else (int(last) if int(last) <= U64MAX else 0)   # parse::<u64>().unwrap_or(0)
+        c.add(label=script, model=[("" if last is None else str(last_eff))] + [("k" + k) if k is not None else "n" for k in lits],
               code=["sh", script, ""], canon=canon, arraykeys=(last, lits), nontrivial=True)
     cores.append(c)
 
